@@ -696,8 +696,11 @@ class PyvalColorizer:
             # In Python < 3.9, non-slices are always wrapped in an Index node.
             sub = sub.value
         self._output('[', self.GROUP_TAG, state)
-        if isinstance(sub, ast.Tuple):
-            self._multiline(self._colorize_iter, sub.elts, state)
+        if isinstance(sub, ast.Tuple) and sub.elts:
+            # the parentheses of a tuple index are optional, unless it is empty;
+            # a single element needs its trailing comma to stay a tuple.
+            self._multiline(self._colorize_iter, sub.elts, state,
+                            suffix=',' if len(sub.elts) == 1 else None)
         else:
             state.result.append(self.WORD_BREAK_OPPORTUNITY)
             self._colorize(sub, state)
